@@ -372,9 +372,19 @@ theorem step_dollar (T : LexTableOK) {inp p} {c : UInt8} {k rest : Bytes} (h : I
       · simp [e])]
     simpa [itemOf] using hr1
 
-/-- `.name` / `.3`: the type is decided by the first character after the dot -/
+theorem letterR_notDigit {r : Nat} (h : letterR r = true) : isDigit (r : Int) = false := by
+  unfold letterR at h
+  simp only [isDigit, Bool.and_eq_false_iff, decide_eq_false_iff_not]
+  split at h
+  · simp only [Bool.or_eq_true, Bool.and_eq_true, decide_eq_true_eq, beq_iff_eq] at h
+    omega
+  · omega
+
+/-- `.name` / `.3`: the type is decided by the first character after the dot — an ASCII digit begins an
+    index, a letter or `_` a name (anything else is an error since /repo 8984077) -/
 theorem step_dot (T : LexTableOK) {inp p} {c : UInt8} {k rest : Bytes} (h : InpAt inp p ((46 :: c :: k) ++ rest))
-    (hk : alnumBytes (c :: k) = true) (hr : WordEnd rest) (le its) :
+    (hk : alnumBytes (c :: k) = true)
+    (hl : isDig c = false → ∀ r w, runeAt (c :: k) = some (r, w) → letterR r = true) (hr : WordEnd rest) (le its) :
     Step2 inp p le its ⟨if isDig c then .tDotIndex else .tDotIdent, 46 :: c :: k⟩ := by
   intro w
   obtain ⟨r, wd, hrune, _⟩ := alnumBytes_cons_rune hk
@@ -383,20 +393,26 @@ theorem step_dot (T : LexTableOK) {inp p} {c : UInt8} {k rest : Bytes} (h : InpA
   refine ⟨hdW rest, .ident, L inp p p 1 le its, ?_, ?_⟩
   · simp only [step, lexInsideTag, next_L h0 (by decide), Option.bind_eq_bind, Option.bind_some]
     simp [isSpaceEOL, isSpace, isEndOfLine, lexInsideTagMid, backup_L]
-  · have hty : (if isDigit (r : Int) = true then ItemType.tDotIndex else ItemType.tDotIdent) =
-        (if isDig c = true then ItemType.tDotIndex else ItemType.tDotIdent) := by
-      rw [runeAt_isDigit hrune]
-    have hr1 := identRest_word T (pre := [46]) (k := c :: k) (rest := rest) (st := p) h hk hr
+  · have hr1 := identRest_word T (pre := [46]) (k := c :: k) (rest := rest) (st := p) h hk hr
       (if isDig c then .tDotIndex else .tDotIdent) (if isDig c then .tDotIndex else .tDotIdent)
       (Or.inr ⟨lookup_special T 46 _ (Or.inr (Or.inl rfl)), rfl, by split <;> simp, by split <;> simp⟩) (wd : Int) le its
     simp only [step, lexIdent, next_L h0 (by decide), Option.bind_eq_bind, Option.bind_some]
     rw [if_pos (by decide)]
-    simp only [next_rune h1 (runeAt_append rest hrune), Option.bind_eq_bind, Option.bind_some, backup_Lw, hty]
-    simpa [itemOf] using hr1
+    simp only [next_rune h1 (runeAt_append rest hrune), Option.bind_eq_bind, Option.bind_some, backup_Lw]
+    cases hd : isDig c with
+    | true =>
+      have : isDigit (r : Int) = true := by rw [runeAt_isDigit hrune]; exact hd
+      rw [if_pos this]
+      simpa [itemOf, hd] using hr1
+    | false =>
+      have hlr := hl hd r wd hrune
+      rw [if_neg (by rw [letterR_notDigit hlr]; simp), if_pos (letterR_true T hlr)]
+      simpa [itemOf, hd] using hr1
 
 /-- `?.name` / `?.3` -/
 theorem step_qdot (T : LexTableOK) {inp p} {c : UInt8} {k rest : Bytes} (h : InpAt inp p ((63 :: 46 :: c :: k) ++ rest))
-    (hk : alnumBytes (c :: k) = true) (hr : WordEnd rest) (le its) :
+    (hk : alnumBytes (c :: k) = true)
+    (hl : isDig c = false → ∀ r w, runeAt (c :: k) = some (r, w) → letterR r = true) (hr : WordEnd rest) (le its) :
     Step2 inp p le its ⟨if isDig c then .tQuestionDotIndex else .tQuestionDotIdent, 63 :: 46 :: c :: k⟩ := by
   intro w
   obtain ⟨r, wd, hrune, _⟩ := alnumBytes_cons_rune hk
@@ -406,65 +422,22 @@ theorem step_qdot (T : LexTableOK) {inp p} {c : UInt8} {k rest : Bytes} (h : Inp
   refine ⟨hdW rest, .ident, L inp p p 1 le its, ?_, ?_⟩
   · simp only [step, lexInsideTag, next_L h0 (by decide), Option.bind_eq_bind, Option.bind_some]
     simp [isSpaceEOL, isSpace, isEndOfLine, lexInsideTagMid, next_L h1, addPos_L2]
-  · have hty : (if isDigit (r : Int) = true then ItemType.tQuestionDotIndex else ItemType.tQuestionDotIdent) =
-        (if isDig c = true then ItemType.tQuestionDotIndex else ItemType.tQuestionDotIdent) := by
-      rw [runeAt_isDigit hrune]
-    have hr1 := identRest_word T (pre := [63, 46]) (k := c :: k) (rest := rest) (st := p) h hk hr
+  · have hr1 := identRest_word T (pre := [63, 46]) (k := c :: k) (rest := rest) (st := p) h hk hr
       (if isDig c then .tQuestionDotIndex else .tQuestionDotIdent) (if isDig c then .tQuestionDotIndex else .tQuestionDotIdent)
       (Or.inr ⟨lookup_special T 63 _ (Or.inr (Or.inr rfl)), rfl, by split <;> simp, by split <;> simp⟩) (wd : Int) le its
     simp only [step, lexIdent, next_L h0 (by decide), Option.bind_eq_bind, Option.bind_some]
     rw [if_neg (by decide), if_neg (by decide), if_neg (by decide), if_neg (by decide), if_pos (by decide)]
     simp only [next_L h1 (by decide), Option.bind_eq_bind, Option.bind_some]
     rw [if_neg (by decide)]
-    simp only [next_rune h2 (runeAt_append rest hrune), Option.bind_eq_bind, Option.bind_some, backup_Lw, hty]
-    simpa [itemOf] using hr1
-
-theorem wordEnd_notDigit {rest : Bytes} (h : WordEnd rest) : isDigit (hdRune rest) = false := by
-  cases rest with
-  | nil => simp [hdRune, isDigit]
-  | cons b s =>
-    have hn := isIdChar_nat_false h.2
-    simp only [hdRune, isDigit, Bool.and_eq_false_iff, decide_eq_false_iff_not]
-    by_cases h48 : 48 ≤ b.toNat
-    · right; exact decide_eq_false (by omega)
-    · left; exact decide_eq_false (by omega)
-
-/-- a dangling `.` (an access with the EMPTY key: `$a.`, `x. + 1` — accepted by the parser) -/
-theorem step_dot0 (T : LexTableOK) {inp p} {rest : Bytes} (h : InpAt inp p ([46] ++ rest)) (hr : WordEnd rest) (le its) :
-    Step2 inp p le its ⟨.tDotIdent, [46]⟩ := by
-  intro w
-  have h0 : InpAt inp p (46 :: rest) := by simpa using h
-  have h1 : InpAt inp (p + 1) rest := inpAt_tail h0
-  refine ⟨hdW rest, .ident, L inp p p 1 le its, ?_, ?_⟩
-  · simp only [step, lexInsideTag, next_L h0 (by decide), Option.bind_eq_bind, Option.bind_some]
-    simp [isSpaceEOL, isSpace, isEndOfLine, lexInsideTagMid, backup_L]
-  · have hr1 := identRest_word T (pre := [46]) (k := []) (rest := rest) (st := p) (by simpa using h) rfl hr
-      .tDotIdent .tDotIdent (Or.inr ⟨lookup_special T 46 _ (Or.inr (Or.inl rfl)), rfl, by simp, by simp⟩) (hdW rest) le its
-    simp only [step, lexIdent, next_L h0 (by decide), Option.bind_eq_bind, Option.bind_some]
-    rw [if_pos (by decide)]
-    simp only [next_hd h1 (wordEnd_ascii hr), Option.bind_eq_bind, Option.bind_some, backup_hd, wordEnd_notDigit hr,
-      Bool.false_eq_true, if_false]
-    simpa [itemOf] using hr1
-
-/-- a dangling `?.` -/
-theorem step_qdot0 (T : LexTableOK) {inp p} {rest : Bytes} (h : InpAt inp p ([63, 46] ++ rest)) (hr : WordEnd rest) (le its) :
-    Step2 inp p le its ⟨.tQuestionDotIdent, [63, 46]⟩ := by
-  intro w
-  have h0 : InpAt inp p (63 :: (46 :: rest)) := by simpa using h
-  have h1 : InpAt inp (p + 1) (46 :: rest) := inpAt_tail h0
-  have h2 : InpAt inp (p + 1 + 1) rest := inpAt_tail h1
-  refine ⟨hdW rest, .ident, L inp p p 1 le its, ?_, ?_⟩
-  · simp only [step, lexInsideTag, next_L h0 (by decide), Option.bind_eq_bind, Option.bind_some]
-    simp [isSpaceEOL, isSpace, isEndOfLine, lexInsideTagMid, next_L h1, addPos_L2]
-  · have hr1 := identRest_word T (pre := [63, 46]) (k := []) (rest := rest) (st := p) (by simpa using h) rfl hr
-      .tQuestionDotIdent .tQuestionDotIdent (Or.inr ⟨lookup_special T 63 _ (Or.inr (Or.inr rfl)), rfl, by simp, by simp⟩)
-      (hdW rest) le its
-    simp only [step, lexIdent, next_L h0 (by decide), Option.bind_eq_bind, Option.bind_some]
-    rw [if_neg (by decide), if_neg (by decide), if_neg (by decide), if_neg (by decide), if_pos (by decide)]
-    simp only [next_L h1 (by decide), Option.bind_eq_bind, Option.bind_some]
-    rw [if_neg (by decide)]
-    simp only [next_hd h2 (wordEnd_ascii hr), Option.bind_eq_bind, Option.bind_some, backup_hd, wordEnd_notDigit hr,
-      Bool.false_eq_true, if_false]
-    simpa [itemOf] using hr1
+    simp only [next_rune h2 (runeAt_append rest hrune), Option.bind_eq_bind, Option.bind_some, backup_Lw]
+    cases hd : isDig c with
+    | true =>
+      have : isDigit (r : Int) = true := by rw [runeAt_isDigit hrune]; exact hd
+      rw [if_pos this]
+      simpa [itemOf, hd] using hr1
+    | false =>
+      have hlr := hl hd r wd hrune
+      rw [if_neg (by rw [letterR_notDigit hlr]; simp), if_pos (letterR_true T hlr)]
+      simpa [itemOf, hd] using hr1
 
 end SoyVerif.Lemmas.LexPrint
